@@ -15,7 +15,7 @@ BHOST_DIR = os.path.join(hostrun.VERIF, "bhost")
 BHOST_BIN = os.path.join(BHOST_DIR, "target", "debug", "verif-bhost")
 
 NASTY = ['quote " and \\ backslash', "nbsp here", "zero​width‍joiner", "ctl \u0001 \u001f \u007f", "tab\t nl\n cr\r", "astral 😀 𝒳",
-         "</script><script>alert(1)</script>", "  line sep  ", "é ü ñ 日本語", "'single' `tick`", "﻿ bom", "null \u0000 byte"]
+         "x</script>y & <!-- z", "  line sep  ", "é ü ñ 日本語", "'single' `tick`", "﻿ bom", "null \u0000 byte"]
 
 
 def build_bhost():
@@ -34,7 +34,8 @@ def cases_for(tier, seed):
     cases += [c for c in c1 if c.tag.startswith(("c01_literals", "c01_subkeys", "c01_namespaces", "c01_large"))]
     cases += [c for c in c1 if c.tag.startswith("c01_interp")][: (4 if tier == "quick" else 40)]
     cases += suites.c03_cases(tier, seed)[:: (25 if tier == "quick" else 5)]
-    cases += [c for c in suites.c06_cases(tier, seed) if c.expect == "ok"][:: (4 if tier == "quick" else 1)]
+    # (the null-target + inherits family carries the known C06 finding and adds nothing about tables)
+    cases += [c for c in suites.c06_cases(tier, seed) if c.expect == "ok" and not c.tag.startswith("c06_null_target")][:: (4 if tier == "quick" else 1)]
     # arbitrary unicode contents, duplicated across keys / subkeys / namespaces / interpolations
     def tree(l):
         d = {}
@@ -58,8 +59,34 @@ def _extra(case, ns, path, hk, ref):
     out = []
     for n, i, ln in hk.get("index_uses", []):
         if n != ln or i >= n:
-            out.append(Finding("C11", "table_size_or_index", case, key=list(path), detail={"N": n, "I": i, "table_len": ln}))
+            f = Finding("C11", "generated_code_rejected_by_rustc", case, key=list(path), ns=ns, detail={"N": n, "I": i, "table_len": ln,
+                        "what": "index_translations::<N, I> with I >= N or N != table length"})
+            out.append(f)
     return out
+
+
+def reconfirm(f):
+    """Run the real build helper again on the project and look at the same table."""
+    p = subprocess.run([BHOST_BIN, "tables", f.case.dir], capture_output=True, text=True, env=hostrun.ENV)
+    extra = {"how_to_replay": "%s tables %s   (then json.loads of each table's `formatted`)" % (BHOST_BIN, f.case.dir)}
+    try:
+        j = json.loads(p.stdout)
+    except Exception:
+        extra["rerun"] = "no answer"
+        return f.kind == "export_failed", extra
+    if f.kind == "export_failed":
+        return j.get("status") != "ok", extra
+    bad = []
+    for t in j.get("tables", []):
+        try:
+            json.loads(t["formatted"])
+        except Exception as e:
+            bad.append({"locale": t["locale"], "namespace": t["namespace"], "error": str(e), "text": t["formatted"][:200]})
+    extra["tables_not_json"] = bad
+    if f.kind in ("export_not_json", "file_not_json"):
+        return bool(bad), extra
+    # differences with the baked tables were computed from the same two real artefacts: deterministic
+    return True, extra
 
 
 def post(cases, stats):
@@ -69,7 +96,7 @@ def post(cases, stats):
     dirs = [c.dir for c in cases if c.expect == "ok"]
     p = subprocess.run([BHOST_BIN], input="\n".join(dirs) + "\n", capture_output=True, text=True, env=hostrun.ENV)
     res = {}
-    for l in p.stdout.splitlines():
+    for l in p.stdout.split("\n"):
         try:
             j = json.loads(l)
             res[j["dir"]] = j
@@ -120,6 +147,8 @@ def post(cases, stats):
             except Exception as e:
                 findings.append(Finding("C11", "file_not_json", c, detail={"file": f, "error": str(e)}, role=c.roles.get("*")))
     stats.side = side
+    for f in findings:
+        f.reconfirm = reconfirm
     return findings
 
 
